@@ -33,6 +33,7 @@ type c02Action struct {
 	err  error
 	done bool
 	ex   bool
+	ex2  bool
 }
 
 type c02Scn struct {
@@ -98,6 +99,12 @@ func c02Units(tier string) []hx.Unit {
 	scns = append(scns, c02Scn{name: "S6/cancel@-2,sched@-2", T: T, actions: []c02Action{{at: T - 2*sec, kind: "cancel", name: "J"}, {at: T - 2*sec, kind: "sched", name: "J"}}})
 	scns = append(scns, c02Scn{name: "S6/run@-1,sched@-1", T: T, actions: []c02Action{{at: T - sec, kind: "run", name: "J"}, {at: T - sec, kind: "sched", name: "J"}}})
 	scns = append(scns, c02Scn{name: "S6/sched@+0", T: T, actions: []c02Action{{at: T, kind: "sched", name: "J"}}})
+	// S6b: the name is scheduled again while the first job, started early, is still executing; the new job is
+	// a pending job like any other: listed, cancellable, and it runs once if not cancelled
+	scns = append(scns, c02Scn{name: "S6b/run@-1/dur3,sched@+0,exists@+3", T: T, jobDur: 3 * sec, horizon: T + 12*sec,
+		actions: []c02Action{{at: T - sec, kind: "run", name: "J"}, {at: T, kind: "sched6", name: "J"}, {at: T + 3*sec, kind: "exists", name: "J"}}})
+	scns = append(scns, c02Scn{name: "S6b/run@-1/dur3,sched@+0,cancel@+3", T: T, jobDur: 3 * sec, horizon: T + 12*sec,
+		actions: []c02Action{{at: T - sec, kind: "run", name: "J"}, {at: T, kind: "sched6", name: "J"}, {at: T + 3*sec, kind: "cancel2", name: "J"}}})
 	// S7: CancelJobs(prefix) with concurrent scheduling
 	scns = append(scns, c02Scn{name: "S7/cancelall@-2,sched2@-2", T: T, actions: []c02Action{{at: T - 2*sec, kind: "cancelall", name: "J"}, {at: T - 2*sec, kind: "sched", name: "J2"}}})
 	scns = append(scns, c02Scn{name: "S7/cancelall@+0,run@+0", T: T, actions: []c02Action{{at: T, kind: "cancelall", name: "J"}, {at: T, kind: "run", name: "J"}}})
@@ -169,6 +176,17 @@ func c02Body(sc *c02Scn, st *c02State) {
 				cancel()
 			case "sched":
 				a.err = svc.ScheduleJob(ctx, "class", a.name, at(sc.T+2*sec), func(_ context.Context) { st.runs2++ })
+			case "sched6":
+				a.err = svc.ScheduleJob(ctx, "class", a.name, at(sc.T+6*sec), func(_ context.Context) { st.runs2++ })
+			case "cancel2":
+				a.err = svc.CancelJob(ctx, a.name)
+			case "exists":
+				a.ex = svc.JobExists(ctx, a.name)
+				for _, n := range svc.ListJobs(ctx) {
+					if n == a.name {
+						a.ex2 = true
+					}
+				}
 			}
 			a.done = true
 		})
@@ -288,6 +306,42 @@ func c02Check(sc *c02Scn, st *c02State, r *mc.Result) mc.Verdict {
 			}
 			if st.runs2 > 1 {
 				return fail("ran-twice", "re-scheduled job ran twice")
+			}
+		}
+		// a job scheduled again under the name while the first was executing is a pending job like any other
+		var sched6 *c02Action
+		for i := range st.acts {
+			a := &st.acts[i]
+			switch a.kind {
+			case "sched6":
+				sched6 = a
+				if a.err != nil {
+					return fail("name-not-reusable", "the name of a claimed, running one-off job cannot be scheduled again: "+a.err.Error())
+				}
+			case "exists":
+				if sched6 != nil && sched6.err == nil && (!a.ex || !a.ex2) {
+					return fail("pending-job-not-listed", "a pending job scheduled under a re-used name is not reported by JobExists / ListJobs")
+				}
+			case "cancel2":
+				if sched6 != nil && sched6.err == nil {
+					if a.err != nil {
+						return fail("pending-job-not-cancellable", "a pending job scheduled under a re-used name cannot be cancelled: "+a.err.Error())
+					}
+					if st.runs2 != 0 {
+						return fail("ran-after-cancel", "a job cancelled clearly before its time still ran")
+					}
+				}
+			}
+		}
+		if sched6 != nil && sched6.err == nil {
+			cancelled2 := false
+			for _, a := range st.acts {
+				if a.kind == "cancel2" && a.err == nil {
+					cancelled2 = true
+				}
+			}
+			if !cancelled2 && st.runs2 != 1 {
+				return fail("rescheduled-job-dropped", fmt.Sprintf("job scheduled under a re-used name ran %d times", st.runs2))
 			}
 		}
 		_ = runAt
